@@ -43,6 +43,7 @@ SOFTWARE, EVEN IF ADVISED OF THE POSSIBILITY OF SUCH DAMAGE.
 #include <yara/strutils.h>
 #include <yara/types.h>
 #include <yara/utils.h>
+#include <yara/verif.h>
 
 typedef struct _CALLBACK_ARGS
 {
@@ -81,7 +82,17 @@ static int _yr_scan_xor_compare(
   // every *s2 as we compare.
   k = *s1 ^ *s2;
 
-  while (i < string_length && *s1++ == ((*s2++) ^ k)) i++;
+  while (i < string_length && *s1++ == ((*s2++) ^ k))
+    YR_VERIF_LOOP(
+        __CPROVER_assigns(i, s1, s2)
+        __CPROVER_loop_invariant(
+            i <= string_length && s1 == data + i && s2 == string + i)
+        __CPROVER_loop_invariant(__CPROVER_forall {
+          size_t vk;
+          (vk < i) ==> data[vk] == (uint8_t) (string[vk] ^ k)
+        })
+        __CPROVER_decreases(string_length - i))
+    i++;
 
   result = (int) ((i == string_length) ? i : 0);
 
@@ -125,6 +136,16 @@ static int _yr_scan_xor_wcompare(
   k = *s1 ^ *s2;
 
   while (i < string_length && *s1 == ((*s2) ^ k) && ((*(s1 + 1)) ^ k) == 0x00)
+    YR_VERIF_LOOP(
+        __CPROVER_assigns(i, s1, s2)
+        __CPROVER_loop_invariant(
+            i <= string_length && s1 == data + 2 * i && s2 == string + i)
+        __CPROVER_loop_invariant(__CPROVER_forall {
+          size_t vk;
+          (vk < i) ==> (data[2 * vk] == (uint8_t) (string[vk] ^ k) &&
+                        data[2 * vk + 1] == k)
+        })
+        __CPROVER_decreases(string_length - i))
   {
     s1 += 2;
     s2++;
@@ -153,7 +174,17 @@ static int _yr_scan_compare(
   if (data_size < string_length)
     return 0;
 
-  while (i < string_length && *s1++ == *s2++) i++;
+  while (i < string_length && *s1++ == *s2++)
+    YR_VERIF_LOOP(
+        __CPROVER_assigns(i, s1, s2)
+        __CPROVER_loop_invariant(
+            i <= string_length && s1 == data + i && s2 == string + i)
+        __CPROVER_loop_invariant(__CPROVER_forall {
+          size_t vk;
+          (vk < i) ==> data[vk] == string[vk]
+        })
+        __CPROVER_decreases(string_length - i))
+    i++;
 
   return (int) ((i == string_length) ? i : 0);
 }
@@ -172,7 +203,17 @@ static int _yr_scan_icompare(
   if (data_size < string_length)
     return 0;
 
-  while (i < string_length && yr_lowercase[*s1++] == yr_lowercase[*s2++]) i++;
+  while (i < string_length && yr_lowercase[*s1++] == yr_lowercase[*s2++])
+    YR_VERIF_LOOP(
+        __CPROVER_assigns(i, s1, s2)
+        __CPROVER_loop_invariant(
+            i <= string_length && s1 == data + i && s2 == string + i)
+        __CPROVER_loop_invariant(__CPROVER_forall {
+          size_t vk;
+          (vk < i) ==> yr_lowercase[data[vk]] == yr_lowercase[string[vk]]
+        })
+        __CPROVER_decreases(string_length - i))
+    i++;
 
   return (int) ((i == string_length) ? i : 0);
 }
@@ -193,6 +234,15 @@ static int _yr_scan_wcompare(
     goto _exit;
 
   while (i < string_length && *s1 == *s2 && *(s1 + 1) == 0x00)
+    YR_VERIF_LOOP(
+        __CPROVER_assigns(i, s1, s2)
+        __CPROVER_loop_invariant(
+            i <= string_length && s1 == data + 2 * i && s2 == string + i)
+        __CPROVER_loop_invariant(__CPROVER_forall {
+          size_t vk;
+          (vk < i) ==> (data[2 * vk] == string[vk] && data[2 * vk + 1] == 0)
+        })
+        __CPROVER_decreases(string_length - i))
   {
     s1 += 2;
     s2++;
@@ -232,6 +282,17 @@ static int _yr_scan_wicompare(
 
   while (i < string_length && yr_lowercase[*s1] == yr_lowercase[*s2] &&
          *(s1 + 1) == 0x00)
+    YR_VERIF_LOOP(
+        __CPROVER_assigns(i, s1, s2)
+        __CPROVER_loop_invariant(
+            i <= string_length && s1 == data + 2 * i && s2 == string + i)
+        __CPROVER_loop_invariant(__CPROVER_forall {
+          size_t vk;
+          (vk < i) ==> (yr_lowercase[data[2 * vk]] ==
+                            yr_lowercase[string[vk]] &&
+                        data[2 * vk + 1] == 0)
+        })
+        __CPROVER_decreases(string_length - i))
   {
     s1 += 2;
     s2++;
